@@ -6,9 +6,19 @@
  * Stubs: ares_array = array_ref.c, snprintf = libc_extra.c, ares_uri_parse_buf = "not a URI" (udp and tcp port are
  *        equal here, so the dns:// form is never produced: OUTSIDE), aif_nametoindex = fixed non-zero scope.
  * The ADDRESS is concrete per job (text length depends on it; the value-generic part is c16_ntop_pton_*), the PORT is
- * arbitrary (all 2^16, equal for UDP and TCP), the interface name is concrete per job (link-local IPv6 only). */
+ * arbitrary (equal for UDP and TCP), the interface name is concrete per job (link-local IPv6 only).
+ * A symbolic port makes the write position of every later byte symbolic, after which the symbolic executor no longer
+ * sees the address text as constant and the parser side explodes (measured: no verdict in 240 s).  The round trip is
+ * therefore proved in two halves that meet at an explicit text model M(server) = ADDRTEXT ":" decimal(port) ["%" iface]:
+ *   MODE 0 (render): real ares_get_server_addr(server) == M(server), all 2^16 ports in one job;
+ *   MODE 1 (parse):  real ares_sconfig_append_fromstr(M(server)) reproduces the server; the digit COUNT of the port is
+ *                    concrete per job (-DD=1..5: 0-9, 10-99, 100-999, 1000-9999, 10000-65535), the digits arbitrary. */
 #include "vp.h"
 #include "ares_update_servers.c"
+#ifndef MODE
+#  define MODE 0
+#endif
+#define MODE_IS_PARSE (MODE == 1)
 
 #ifndef FAMILY
 #  define FAMILY AF_INET
@@ -26,11 +36,72 @@ ares_status_t ares_uri_parse_buf(ares_uri_t **out, ares_buf_t *buf)
   *out = NULL;
   return ARES_EBADSTR;
 }
+#if MODE_IS_PARSE
+/* MODE 1: the converter is replaced by a recorder that accepts exactly ADDRTEXT (returning the server's address bytes)
+ * and rejects every other text: the assertion below then says the parser isolated exactly the address text.  That
+ * the REAL converter maps ADDRTEXT to ADDR is c16_ntop_pton_* (real inet_ntop -> real inet_pton identity). */
+static int pton_hits;
+int ares_inet_pton(int af, const char *src, void *dst)
+{
+  static const char          at[]   = ADDRTEXT;
+  static const unsigned char addr[] = { ADDR };
+  size_t                     i;
+  for (i = 0; i < sizeof(at); i++)
+    if (src[i] != at[i])
+      return 0;
+  if (af != FAMILY)
+    return 0;
+  for (i = 0; i < sizeof(addr); i++)
+    ((unsigned char *)dst)[i] = addr[i];
+  pton_hits++;
+  return 1;
+}
+#endif
+
 static unsigned int nametoindex(const char *ifname, void *ud)
 {
   (void)ud;
   (void)ifname;
   return 7;
+}
+
+#ifndef MODE
+#  define MODE 0
+#endif
+#ifndef ADDRTEXT
+#  define ADDRTEXT "1.2.3.4" /* what ares_inet_ntop gives for ADDR; checked against the real one in MODE 0 */
+#endif
+#ifndef D
+#  define D 0
+#endif
+
+/* M(server): D == 0 => as many digits as the value needs */
+static size_t model_text(char *out, unsigned short port)
+{
+  static const char at[] = ADDRTEXT;
+  static const char ifn[] = IFACE;
+  size_t            n = 0, i, nd;
+  unsigned          div;
+  if (FAMILY == AF_INET6) out[n++] = '[';
+  for (i = 0; i < sizeof(at) - 1; i++) out[n++] = at[i];
+  if (FAMILY == AF_INET6) out[n++] = ']';
+  out[n++] = ':';
+#if D == 0
+  nd = port >= 10000 ? 5 : port >= 1000 ? 4 : port >= 100 ? 3 : port >= 10 ? 2 : 1;
+#else
+  nd = D;
+#endif
+  div = nd == 5 ? 10000 : nd == 4 ? 1000 : nd == 3 ? 100 : nd == 2 ? 10 : 1;
+  for (i = 0; i < nd; i++) {
+    out[n++] = (char)('0' + (port / div) % 10);
+    div /= 10;
+  }
+  if (sizeof(ifn) > 1) {
+    out[n++] = '%';
+    for (i = 0; i < sizeof(ifn) - 1; i++) out[n++] = ifn[i];
+  }
+  out[n] = 0;
+  return n;
 }
 
 void harness(void)
@@ -54,27 +125,54 @@ void harness(void)
   sv.tcp_port = port;
   ares_strcpy(sv.ll_iface, IFACE, sizeof(sv.ll_iface));
 
-  buf = ares_buf_create();
-  VP_ASSUME(buf != NULL);
-  st = ares_get_server_addr(&sv, buf);
-  VP_ASSERT(st == ARES_SUCCESS, "a configured server can be rendered as text");
-  text = ares_buf_finish_str(buf, &len);
-  VP_ASSERT(text != NULL && text[len] == 0 && len >= 9, "rendered server text is a NUL-terminated string");
-
+#if MODE == 0
+  {
+    char   model[96];
+    size_t ml = model_text(model, port);
+    buf = ares_buf_create();
+    VP_ASSUME(buf != NULL);
+    st = ares_get_server_addr(&sv, buf);
+    VP_ASSERT(st == ARES_SUCCESS, "a configured server can be rendered as text");
+    text = ares_buf_finish_str(buf, &len);
+    VP_ASSERT(text != NULL && len == ml, "rendered server text has the length of ADDR:PORT[%IFACE]");
+    for (i = 0; i <= ml; i++)
+      VP_ASSERT(text[i] == model[i], "rendered server text is ADDR:PORT[%IFACE] (address as inet_ntop, port in decimal)");
+    if (port == 0) VP_WITNESS("port zero");
+    if (port >= 10000) VP_WITNESS("five-digit port");
+    ares_free(text);
+    (void)list; (void)s;
+  }
+#else
+#  if D == 1
+  VP_ASSUME(port <= 9);
+#  elif D == 2
+  VP_ASSUME(port >= 10 && port <= 99);
+#  elif D == 3
+  VP_ASSUME(port >= 100 && port <= 999);
+#  elif D == 4
+  VP_ASSUME(port >= 1000 && port <= 9999);
+#  else
+  VP_ASSUME(port >= 10000);
+#  endif
+  text = ares_malloc(96);
+  VP_ASSUME(text != NULL);
+  len = model_text(text, port);
+  (void)buf;
   st = ares_sconfig_append_fromstr(&ch, &list, text, ARES_FALSE);
   VP_ASSERT(st == ARES_SUCCESS, "the rendered text is accepted by the setter (strict mode)");
   VP_ASSERT(ares_llist_len(list) == 1, "the rendered text yields exactly one server");
+#if MODE_IS_PARSE
+  VP_ASSERT(pton_hits >= 1, "the parser hands exactly the address text to the converter");
+#endif
   s = ares_llist_first_val(list);
   VP_ASSERT(s != NULL && ares_addr_match(&s->addr, &sv.addr), "address survives the text round trip");
   VP_ASSERT(s->udp_port == port && s->tcp_port == port, "both ports survive the text round trip");
   for (i = 0; i < sizeof(IFACE); i++)
     VP_ASSERT(s->ll_iface[i] == IFACE[i], "link-local interface survives the text round trip");
   if (sizeof(IFACE) > 1) VP_ASSERT(s->ll_scope == 7, "link-local scope is resolved again");
-  if (port == 0) VP_WITNESS("port zero");
-  if (port >= 10000) VP_WITNESS("five-digit port");
-
   ares_llist_destroy(list);
   ares_free(text);
+#endif
   VP_ASSERT(vp_alloc_live == 0, "nothing leaks");
   VP_WITNESS("end");
 }
